@@ -56,7 +56,7 @@ Proof. vm_compute. split; reflexivity. Qed.
    bound to exactly the model's slot (or not bound), and no other key is bound *)
 Lemma tie_enabled_map_l :
   forallb (fun p => optN_eqb (option_map slot_num
-                                (tget (decoders {| s_max := 0; s_algs := Some (fst (fst p)); s_custom := [] |}) (snd (fst p))))
+                                (tget (decoders {| s_max := 0; s_algs := Some (fst (fst p)); s_custom := []; s_mw := 0 |}) (snd (fst p))))
                              (snd p)) T_Enabled = true /\
   T_EnabledUnknownKey = [].
 Proof. vm_compute. split; reflexivity. Qed.
@@ -64,7 +64,7 @@ Proof. vm_compute. split; reflexivity. Qed.
 (* defaultMaxRequestBodySize, defaultCompressionAlgorithms and the defaulting ToServer applies *)
 Lemma tie_server_defaults_l :
   default_max = T_DefaultMax /\ default_algs = T_DefaultAlgs /\ default_algs = T_EffAlgsNil /\
-  forallb (fun p => Z.eqb (eff_max {| s_max := fst p; s_algs := None; s_custom := [] |}) (snd p)) T_EffMax = true.
+  forallb (fun p => Z.eqb (eff_max {| s_max := fst p; s_algs := None; s_custom := []; s_mw := 0 |}) (snd p)) T_EffMax = true.
 Proof. vm_compute. repeat split. Qed.
 
 (* translator T1: newCompressionParams passes the level through unchanged (the model hands c_level on) *)
